@@ -90,6 +90,12 @@ GoRel(op, x, y) == CASE op = "<" -> x < y [] op = "<=" -> x <= y [] op = ">" -> 
 (* ----------------------------------------------------------- per cell *)
 Name(i, j) == <<Val(i).name, Val(j).name>>
 
+\* presentation f of cell c ("" = the presentation does not exist for these operands)
+Written(c, f, how, F(_)) ==
+  IF c.kind # "panic" /\ c[f] # "" /\ c[f] # c.script
+  THEN F(how \o " (optimizer on) the result is " \o c[f] \o ", the operator on the same values gives " \o c.script)
+  ELSE <<>>
+
 \* returns the sequence of failures of cell (op, i, j); <<>> when it is fine
 CellFailures(op, i, j) ==
   LET c == Cell(op, i, j)  a == Val(i)  b == Val(j)
@@ -98,6 +104,14 @@ CellFailures(op, i, j) ==
   IN
   (IF c.kind = "panic" THEN F("operator panics instead of raising an error") ELSE <<>>)
   \o (IF c.kind # "panic" /\ c.direct # c.script THEN F("Object.BinaryOp/Equal called from Go disagrees with the script-level operator: " \o c.direct) ELSE <<>>)
+  \* an operator is a function of its operand values: however the operation is written
+  \* (an operand as a literal or a constant, both as literals - where the optimizer folds or
+  \* simplifies -, or as compound assignment) the outcome is the one of the plain operator
+  \o Written(c, "litb", "with the right operand written as a literal", F)
+  \o Written(c, "lita", "with the left operand written as a literal", F)
+  \o Written(c, "litab", "with both operands written as literals", F)
+  \o Written(c, "constb", "with the right operand a constant", F)
+  \o Written(c, "asg", "written as compound assignment", F)
   \o (IF numeric /\ op \in Arith /\ c.kind # "panic" /\ ~Unspecified(op, a.typ, b.typ)
       THEN LET k == ArithKind(op, i, j)  ct == ConvType(a.typ, b.typ) IN
            CASE k \in {"TypeError", "ZeroDivisionError"} ->
